@@ -907,3 +907,11 @@ def origin(path: Path, index: int, expr):
     trace = []
     text = normalise_state_aliases(ast.unparse(value_expr(path, index, expr, trace=trace)))
     return text, (trace[-1] if trace else None)
+
+
+def receiver_at(path: Path, event: Event):
+    """text of the object a method is called on, locals replaced by what reaches them"""
+    node = event.node
+    if isinstance(node, ast.Call) and isinstance(node.func, ast.Attribute):
+        return text_at(path, event, node.func.value)
+    return None
